@@ -34,6 +34,7 @@ type Case struct {
 	JSONBody                                          bool
 	CEnc                                              string `json:",omitempty"` // Content-Encoding of the probe: "" | identity | utf-8 | compress (none of them a supported compression: the body is taken as is)
 	Fillers                                           []Filler
+	Pre                                               string `json:",omitempty"` // middleware in front of the endpoint: "" | mw-next (passes on) | mw-params (reads its own route parameter and other accessors, keeps them, passes on)
 }
 
 type capt struct {
@@ -49,6 +50,7 @@ type Bound struct {
 }
 
 type run struct {
+	preCaps   []capt // taken by the middleware of the probe request
 	caps      []capt
 	atReturn  []string // captures that had changed already when the handler returned
 	wrongSent []string
@@ -163,7 +165,7 @@ func (r *run) capture(c fiber.Ctx, cs Case, probe bool) {
 			r.wrongSent = append(r.wrongSent, fmt.Sprintf("%s: got %q, sent %q", cp.family, cp.orig, cp.sent))
 		}
 	}
-	r.caps = caps
+	r.caps = append(r.preCaps, caps...)
 }
 
 func (cs Case) probeWire() string {
@@ -203,6 +205,22 @@ func (f Filler) wire() string {
 func exchange(cs Case, immutable bool) (*run, error) {
 	app := fiber.New(fiber.Config{Immutable: immutable, ProxyHeader: "X-Forwarded-For"})
 	r := &run{}
+	if cs.Pre != "" {
+		app.Use("/u/:uid", func(c fiber.Ctx) error {
+			if cs.Pre == "mw-params" {
+				var caps []capt
+				add := func(fam, v, sent string) { caps = append(caps, capt{fam, v, strings.Clone(v), sent}) }
+				add("Params(middleware)", c.Params("uid"), cs.ID)
+				add("Path(middleware)", c.Path(), "")
+				add("Query(middleware)", c.Query("name"), cs.QName)
+				add("Get(middleware)", c.Get("X-Name"), cs.XName)
+				if c.Query("probe") == "1" {
+					r.preCaps = caps
+				}
+			}
+			return c.Next()
+		})
+	}
 	app.Post("/u/:id/*", func(c fiber.Ctx) error {
 		r2 := r
 		if c.Query("probe") != "1" {
@@ -276,6 +294,9 @@ func check(cs Case) vk.Verdict {
 	if cs.CEnc != "" {
 		v.Classes = append(v.Classes, "probe-content-encoding")
 	}
+	if cs.Pre != "" {
+		v.Classes = append(v.Classes, "pre:"+cs.Pre)
+	}
 	return v
 }
 
@@ -286,7 +307,8 @@ func word(t *rapid.T, label string, lo, hi int) string {
 func genCase(t *rapid.T) Case {
 	cs := Case{ID: word(t, "id", 3, 9), Rest: word(t, "rest", 3, 9), QName: word(t, "qn", 3, 9), T1: word(t, "t1", 2, 5), T2: word(t, "t2", 2, 5),
 		H1: word(t, "h1", 2, 5), H2: word(t, "h2", 2, 5), XName: word(t, "xn", 3, 9), Ck: word(t, "ck", 3, 9), FName: word(t, "fn", 3, 9), JSONBody: rapid.IntRange(0, 3).Draw(t, "json") == 0,
-		CEnc: rapid.SampledFrom([]string{"", "", "", "identity", "utf-8", "compress"}).Draw(t, "cenc")}
+		CEnc: rapid.SampledFrom([]string{"", "", "", "identity", "utf-8", "compress"}).Draw(t, "cenc"),
+		Pre:  rapid.SampledFrom([]string{"", "", "mw-next", "mw-params", "mw-params"}).Draw(t, "pre")}
 	n := rapid.IntRange(1, 20).Draw(t, "nfill")
 	up := func(label string, lo, hi int) string { return strings.ToUpper(word(t, label, lo, hi)) }
 	for i := 0; i < n; i++ {
